@@ -506,8 +506,8 @@ class Gene:
         fusions_right = {}
         custom_cn = {}
 
-        # allele ID of the deletion allele (i.e. whole gene is missing).
-        deletion_allele = None
+        # allele IDs of the deletion alleles (i.e. whole gene is missing).
+        deletion_alleles: List[str] = []
 
         def process_mutation(name, pos, op, info):
             if pos == self.name and op.startswith("deletion:"):
@@ -576,7 +576,7 @@ class Gene:
             name = allele_name(name)
             mutations: Set[Mutation] = set()
             if [self.name, "deletion"] in allele["mutations"]:
-                deletion_allele = name
+                deletion_alleles.append(name)
             else:
                 for pos, op, *info in allele["mutations"]:
                     if isinstance(pos, str) and pos == "ignored":
@@ -608,7 +608,10 @@ class Gene:
         # the first pseudogene. Multi-pseudogene fusions are not supported.
 
         self.do_copy_number = bool(
-            deletion_allele or len(fusions_left) or len(fusions_right) or len(custom_cn)
+            len(deletion_alleles)
+            or len(fusions_left)
+            or len(fusions_right)
+            or len(custom_cn)
         )
         self.cn_configs: Dict[str, CNConfig] = dict()
 
@@ -635,14 +638,14 @@ class Gene:
             else:
                 self.cn_configs[inverse_cn[key]].alleles.add(a)
         # Deletion is a special kind of left fusion
-        if deletion_allele is not None:
+        if len(deletion_alleles) > 0:
             cn = [{r: 0 for r in self.regions[0]}]
             if len(self.pseudogenes) > 0:
                 cn.append({r: 1 for r in self.regions[1]})
-            self.cn_configs[deletion_allele] = CNConfig(
+            self.cn_configs[deletion_alleles[0]] = CNConfig(
                 cn,
                 CNConfigType.DELETION,
-                {deletion_allele},
+                set(deletion_alleles),
                 f"{self.name} deletion",
             )
         # Right fusions GENE + PSEUDOGENE + whole copy of PSEUDOGENE fusions
